@@ -6,6 +6,7 @@
 import Theorems.C11
 import Theorems.C17
 import Theorems.Routing
+import Theorems.ChanRouting
 
 namespace Amqp.Limits
 open Amqp.Handles Amqp.Gen.Limits
